@@ -12,6 +12,8 @@
 #include <vx/vx.h>
 
 #include <csignal>
+#include <exception>
+#include <new>
 #include <unordered_map>
 #include <sys/mman.h>
 #include <sys/wait.h>
@@ -70,6 +72,15 @@ inline int guarded(const std::function<int()>& body)
         signal(SIGBUS, on_fatal);
         signal(SIGFPE, on_fatal);
         signal(SIGILL, on_fatal);
+        std::set_terminate([] {
+            // running out of memory is a harness problem, not a finding
+            if (auto e = std::current_exception()) {
+                try { std::rethrow_exception(e); }
+                catch (const std::bad_alloc&) { printf("HARNESS-ERROR property=%s out of memory\n", vx::ctx().id.c_str()); fflush(stdout); _exit(2); }
+                catch (...) {}
+            }
+            abort();
+        });
         int rc = body();
         fflush(stdout);
         _exit(rc);
@@ -77,6 +88,14 @@ inline int guarded(const std::function<int()>& body)
     int st = 0;
     while (waitpid(pid, &st, 0) < 0 && errno == EINTR) {}
     if (WIFEXITED(st) && WEXITSTATUS(st) != 97) return WEXITSTATUS(st);
+    if (WIFSIGNALED(st)) {
+        int sig = WTERMSIG(st);
+        // killed from outside (OOM killer, timeout, ctrl-c ...): not a statement about the code under test
+        if (sig != SIGABRT && sig != SIGSEGV && sig != SIGBUS && sig != SIGFPE && sig != SIGILL) {
+            printf("HARNESS-ERROR property=%s exploration process was killed by signal %d\n", vx::ctx().id.c_str(), sig);
+            return 2;
+        }
+    }
     Shared* s = shared();
     auto& E = vx::ev();
     E.states = s->states.load();
